@@ -118,7 +118,25 @@ pub fn bases() -> Vec<Base> {
             body: vec![s(0, InvForm::None, OmitForm::None), s(5, InvForm::None, OmitForm::OmitInv)],
             text: None,
         },
+        // a step that fails every tuple without destroying all of it (a user-registered operator: x becomes NaN,
+        // count 0): the steps after it still run, and what they do to the other elements shows
+        /* 21 */ Base::Elem { name: "failall", args: "", invertible: true },
     ]
+}
+
+// ----- the user-registered operator of base 21 ---------------------------------------------------
+
+fn failall_apply(_op: &Op, _ctx: &dyn Context, operands: &mut dyn CoordinateSet) -> usize {
+    for i in 0..operands.len() {
+        let mut c = operands.get_coord(i);
+        c[0] = f64::NAN;
+        operands.set_coord(i, &c);
+    }
+    0
+}
+const FAILALL_GAMUT: [OpParameter; 1] = [OpParameter::Flag { key: "inv" }];
+fn failall_new(parameters: &RawParameters, ctx: &dyn Context) -> Result<Op, Error> {
+    Op::plain(parameters, InnerOp(failall_apply), Some(InnerOp(failall_apply)), &FAILALL_GAMUT, ctx)
 }
 
 fn base_name(b: &Base) -> &'static str {
@@ -205,6 +223,7 @@ pub struct Reference {
 impl Reference {
     pub fn new(bases: &[Base]) -> Reference {
         let mut ctx = Minimal::default();
+        ctx.register_op("failall", OpConstructor(failall_new));
         let elems = bases
             .iter()
             .map(|b| match b {
@@ -290,6 +309,7 @@ pub const PROBE: [C4; 3] = [
 
 pub fn new_ctx(bases: &[Base]) -> Minimal {
     let mut ctx = Minimal::default();
+    ctx.register_op("failall", OpConstructor(failall_new));
     for b in bases {
         if let Base::Macro { name, body, text } = b {
             let rendered = render(bases, body);
@@ -513,7 +533,7 @@ pub fn run(tier: Tier) -> Report {
     let all: Vec<usize> = (0..bases.len()).collect();
     let full = step_space(&all, &ALL_INV, &ALL_OMIT);
     let reduced = step_space(
-        &[0, 1, 5, 7, 8, 9, 11, 15, 20],
+        &[0, 1, 5, 7, 8, 9, 11, 15, 21],
         &[InvForm::None, InvForm::Suffix, InvForm::Prefix],
         &[OmitForm::None, OmitForm::OmitFwd, OmitForm::Gt],
     );
